@@ -122,8 +122,11 @@ impl PartialEq for PublicKey {
 
 impl PublicKey {
     /// Verify the Ed25519 signature on a message using the public key.
+    ///
+    /// Small-order public keys and signature points are rejected: for those a signature that
+    /// verifies for any message can be produced without knowing any secret key.
     pub fn verify(&self, msg: &[u8], sig: &[u8]) -> bool {
-        ed25519::Signature::try_from(sig).and_then(|s| self.0.verify(msg, &s)).is_ok()
+        ed25519::Signature::try_from(sig).and_then(|s| self.0.verify_strict(msg, &s)).is_ok()
     }
 
     /// Convert the public key to a byte array in compressed form, i.e.
